@@ -122,6 +122,11 @@ FAMILIES = [
     ('lookahead-reuse', lambda k: 'start = [Expect(W), Expect([W, "!"]), W, Opt("!")]\nW = /[a-z]/ >> Opt(W)\n'),
     ('class-reuse', lambda k: 'class K { a: /[a-z]/; rest: Opt(K) }\nstart = [Expect(K), K] | K\n'),
     ('choice-shared-prefix', lambda k: 'start = [T, "+", start] | [T, "-", start] | T\nT = [F, "*", T] | [F, "/", T] | F\nF = "(" >> start << ")" | /[a-z]/\n'),
+    # a parameterless rule that calls a parameterised rule with an UNHASHABLE argument (that call cannot be memoised;
+    # the parameterless rule itself must still be evaluated once per position)
+    ('unhashable-argument-inside-shared-rule',
+     lambda k: 'OneOf(xs) = /[a-z]/ where `lambda c: c in xs`\nItem = [OneOf(`[\'a\', \'b\']`), Opt(Item)]\n'
+               'start = [Item, "x"] | [Item, "y"] | [Expect(Item), Item, "z"] | Item\n'),
     ('side-effect', lambda k: '```\nimport collections\nCALLS = collections.Counter()\ndef note(x):\n    CALLS[x] += 1\n    return x\n```\nstart = [A, "x"] | [A, "y"] | A\nA = /[a-z]+/ |> `note`\n'),
 ]
 
@@ -145,7 +150,7 @@ def grammar_stream(R_, tier, rnd):
 
             def wrap(rn, f):
                 def w(*a):
-                    k = (rn, a[-1])
+                    k = (rn, a[1])
                     counts[k] = counts.get(k, 0) + 1
                     return f(*a)
                 return w
@@ -167,6 +172,11 @@ def grammar_stream(R_, tier, rnd):
             R_.count('grammar-families', (name, n))
             case = {'family': name, 'grammar': mk(0), 'text_length': len(text)}
             worst = max(counts.values()) if counts else 0
+            if name == 'unhashable-argument-inside-shared-rule':
+                # the parameterised rule is (by design) not memoised for an unhashable argument: judge the parameterless rules
+                counts = {k: v for k, v in counts.items() if k[0] != 'OneOf'}
+                worst = max(counts.values()) if counts else 0
+                total = sum(counts.values())
             if worst > 1:
                 k = max(counts, key=counts.get)
                 R_.counterexample('grammar-families', 'rule-evaluated-twice-at-a-position', case,
